@@ -210,6 +210,25 @@ theorem patch_patch_adjacent (d : Bytes) (q : Nat) (b : UInt8) (v : Bytes)
     · subst c2; simp
     · rw [if_neg (by simp; omega), if_neg (by simp; omega)]
 
+theorem patch_append (d : Bytes) (q : Nat) (v1 v2 : Bytes) (h : q + (v1.length + v2.length) ≤ d.length) :
+    patch d q (v1 ++ v2) = patch (patch d q v1) (q + v1.length) v2 := by
+  have h1 : q + v1.length ≤ d.length := by omega
+  have hl : (patch d q v1).length = d.length := length_patch _ _ _ h1
+  apply List.ext_getElem?
+  intro i
+  rw [getElem?_patch _ _ _ _ (by simpa using h), getElem?_patch _ _ _ _ (by rw [hl]; omega),
+    getElem?_patch _ _ _ _ h1]
+  simp only [List.length_append]
+  by_cases c1 : q ≤ i ∧ i < q + v1.length
+  · rw [if_pos (by omega), if_neg (by omega), if_pos c1, List.getElem?_append, if_pos (by omega)]
+  · by_cases c2 : q + v1.length ≤ i ∧ i < q + v1.length + v2.length
+    · rw [if_pos (by omega), if_pos c2, List.getElem?_append, if_neg (by omega)]
+      congr 1; omega
+    · rw [if_neg (by omega), if_neg c2, if_neg c1]
+
+theorem slice_append_right (d e : Bytes) : slice (d ++ e) d.length e.length = e := by
+  unfold slice; simp
+
 theorem slice_succ (d : Bytes) (p n : Nat) (h : p < d.length) :
     slice d p (n + 1) = d[p] :: slice d (p + 1) n := by
   apply List.ext_getElem?
